@@ -89,8 +89,11 @@ theorem CLok_congr {r r' : Resp} (hh : r'.hdrs .contentLength = r.hdrs .contentL
 theorem expires_CLok (r : Resp) (h : CLok r) : CLok (expiresStep r).1 :=
   CLok_congr (by simp [expiresStep]) rfl h
 
-theorem tee_CLok (r : Resp) (h : CLok r) : CLok (teeStep r).1 :=
-  CLok_congr rfl rfl h
+theorem tee_CLok (rq : Req) (r : Resp) (h : CLok r) : CLok (teeStep rq r).1 := by
+  unfold teeStep
+  split
+  · exact h
+  · exact CLok_congr rfl rfl h
 
 theorem flatten_CLok (r : Resp) (h : CLok r) : CLok (flattenStep r).1 := by
   unfold CLok at *
@@ -244,7 +247,7 @@ theorem applyStep_CLok (pg : Pages) (rq : Req) (cached : Bool) (s : Step) (r : R
   | flatten => exact flatten_CLok r h
   | etags => exact etags_CLok rq r h
   | gzip => exact gzip_CLok pg rq cached r h
-  | tee => exact tee_CLok r h
+  | tee => exact tee_CLok rq r h
   | probe act once => exact probe_CLok act once r h
 
 /-- ... and so does every *sequence* of steps, in any order and of any length -/
